@@ -73,3 +73,9 @@ Example width_with_repeated_names :
    OOne None].
 Proof. exact fetch_nonvacuous. Qed.
 Print Assumptions width_with_repeated_names.
+
+(* reading cursor.description, sqlstate, sfqid ... between the fetch calls - at any points of any call sequence - changes
+   no answer and not the final state *)
+Theorem peek_erasure : forall ops s, outs_erase ops (run s ops) = run s (erase ops) /\ final s ops = final s (erase ops).
+Proof. exact peek_erasure_l. Qed.
+Print Assumptions peek_erasure.
